@@ -13,6 +13,7 @@ from fjverif.core import Report, AnalysisError, load_known_findings, _match_know
 PROPS = [f'C{i:02d}' for i in range(1, 21)]
 SUFFIX = '_rn'
 PARAMS = '--params' in sys.argv          # rename parameters (of C static functions / private python functions) instead of locals
+REWRITE = next((a[2:] for a in sys.argv if a in ('--flip', '--invert', '--name', '--all')), None)   # other mechanical rewrites of python functions
 SINGLE = '--single' in sys.argv          # one local at a time instead of all locals of a function at once
 
 
@@ -65,7 +66,8 @@ if __name__ == '__main__':
     for rel in files:
         props = [p for p in PROPS if rel in READS[p]]
         if rel.endswith('.py') and do_py:
-            for q, new in py_variants(rel, repo.src(rel)):
+            gen = py_variants(rel, repo.src(rel)) if REWRITE is None else _alpha.py_rewrites(rel, repo.src(rel), REWRITE)
+            for q, new in gen:
                 if only is None or only in q:
                     tasks.append((rel, q, new, props))
         elif rel.endswith('.fj') and do_fj:
@@ -73,7 +75,8 @@ if __name__ == '__main__':
                 if only is None or only in q:
                     tasks.append((rel, q, new, props))
         elif rel.endswith('.c') and do_c:
-            for q, new in c_variants(rel, repo.src(rel)):
+            genc = c_variants(rel, repo.src(rel)) if REWRITE is None else _alpha.c_rewrites(rel, repo.src(rel), REWRITE)
+            for q, new in genc:
                 if only is None or only in q:
                     tasks.append((rel, q, new, props))
     print(f'{len(tasks)} renamed functions over {len(files)} files')
